@@ -185,10 +185,12 @@ class Kernel:
             items = self.sim.draw_perm(items, "ready-order")
         return items
 
-    def would_block(self, timeout):
-        """A poller found nothing ready.  Single-threaded mode: simulated sleep."""
+    def would_block(self, timeout, scan=None):
+        """A poller found nothing ready.  Single-threaded mode: simulated sleep.
+        `scan` is a side-effect-free callable telling whether something is ready now
+        (multi-threaded mode blocks the calling sim-thread on it)."""
         if self.idle is not None:
-            return self.idle(timeout)
+            return self.idle(timeout, scan)
         if timeout is None:
             self.poll_blocked_forever += 1
         return None
@@ -471,7 +473,7 @@ class FakeSelect:
         rlist, wlist = list(rlist), list(wlist)
         r, w = self._scan(rlist, wlist)
         if not r and not w and (timeout is None or timeout > 0):
-            self.k.would_block(timeout)
+            self.k.would_block(timeout, lambda: any(self._scan(rlist, wlist)))
             r, w = self._scan(rlist, wlist)
         by_fd_r = dict(r)
         by_fd_w = dict(w)
@@ -526,7 +528,7 @@ class FakePoll:
         out = self._scan()
         if not out and (timeout is None or timeout < 0 or timeout > 0):
             t = None if (timeout is None or timeout < 0) else timeout / 1000.0
-            self.k.would_block(t)
+            self.k.would_block(t, lambda: bool(self._scan()))
             out = self._scan()
         return [(fd, out[fd]) for fd in self.k.order(out)]
 
@@ -564,7 +566,7 @@ class FakeEpoll(FakePoll):
         out = self._scan()
         if not out and (timeout is None or timeout < 0 or timeout > 0):
             t = None if (timeout is None or timeout < 0) else timeout
-            self.k.would_block(t)
+            self.k.would_block(t, lambda: bool(self._scan()))
             out = self._scan()
         ev = [(fd, out[fd]) for fd in self.k.order(out)]
         if maxevents is not None and maxevents > 0:
